@@ -331,6 +331,16 @@ func pickCoeff(g *G) float64 {
 	}
 }
 
+// pickSurvivalThresh: half of the time a "round" threshold, so that survival_thresh*n is an exact integer for many species
+// sizes (the boundary of floor(thresh*n)+1), otherwise any value in (0.05, 1]
+func pickSurvivalThresh(g *G) float64 {
+	if g.chance(0.5) {
+		round := []float64{0.1, 0.2, 0.25, 0.3, 0.4, 0.5, 0.5, 0.6, 0.75, 0.8, 1.0}
+		return round[g.intn(len(round))]
+	}
+	return 0.05 + g.f64()*0.95
+}
+
 // randOpts draws option settings within their documented ranges
 func randOpts(g *G) *neat.Options {
 	o := &neat.Options{
@@ -342,7 +352,7 @@ func randOpts(g *G) *neat.Options {
 		MutdiffCoeff:           pickCoeff(g),
 		CompatThreshold:        0.5 + g.f64()*6,
 		AgeSignificance:        1.0 + float64(g.intn(3))*0.5,
-		SurvivalThresh:         0.05 + g.f64()*0.95,
+		SurvivalThresh:         pickSurvivalThresh(g),
 		MutateOnlyProb:         g.f64() * 0.5,
 		MutateRandomTraitProb:  g.f64() * 0.3,
 		MutateLinkTraitProb:    g.f64() * 0.3,
